@@ -228,6 +228,8 @@ type MetricCase struct {
 	Start int64  `json:"start"` // ns
 	End   int64  `json:"end"`
 	Step  int64  `json:"step"` // ns; 0 with Start == End: instant
+	// Bounds: the mock storage returns only the records inside the requested [start, end]
+	Bounds bool `json:"bounds,omitempty"`
 	// Repeat evaluates the implementation this many times and requires identical results (map order)
 	Repeat int `json:"repeat,omitempty"`
 }
@@ -374,7 +376,7 @@ func (r mResult) Sexp() Sexp {
 
 // metricImplOnce evaluates the case once on the real engine.
 func metricImplOnce(t MetricCase) mResult {
-	mq := &mockQuerier{recs: t.Recs}
+	mq := &mockQuerier{recs: t.Recs, honourBounds: t.Bounds, shareAttrs: t.Bounds}
 	data, err := evalQuery(mq, t.E.Text(), t.Start, t.End, time.Duration(t.Step), -1)
 	if err != nil {
 		cls := errClassOf(err)
@@ -499,6 +501,10 @@ func genMGroup(r *rand.Rand) *MGroup {
 
 func genRangeExpr(r *rand.Rand, simple bool) *MExpr {
 	e := &MExpr{Kind: "range", RangeS: pick(r, []int64{1, 2, 5, 10}), RangeFirst: r.Intn(2) == 0}
+	if r.Intn(6) == 0 {
+		// longer than the engine's 30 s lookback
+		e.RangeS = pick(r, []int64{35, 60, 90})
+	}
 	if r.Intn(3) == 0 {
 		e.OffsetS = pick(r, []int64{1, 2, 5})
 	}
@@ -538,8 +544,12 @@ func genRangeExpr(r *rand.Rand, simple bool) *MExpr {
 func genMRecs(r *rand.Rand, n int) []LRec {
 	recs := make([]LRec, n)
 	ts := mT0 - 2
+	spread := int64(3)
+	if r.Intn(4) == 0 {
+		spread = 25 // records far apart: long ranges and the storage's time bounds matter
+	}
 	for i := range recs {
-		ts += int64(r.Intn(3)) // equal timestamps and 1 s lattice: window edges are hit
+		ts += int64(r.Intn(int(spread))) // equal timestamps and 1 s lattice: window edges are hit
 		rec := LRec{TS: ts * 1e9, Body: pick(r, []string{"x", "error a=1", "lvl=warn d=1", "", "é", "xy z"})}
 		for _, l := range distinctStrings(r, mLabels, r.Intn(4)) {
 			rec.Attrs = append(rec.Attrs, [2]string{l, pick(r, mLabelVal)})
@@ -590,7 +600,11 @@ func asciiBodiesIfRegex(t *MetricCase) {
 
 func genParams(r *rand.Rand, t *MetricCase) {
 	asciiBodiesIfRegex(t)
+	t.Bounds = r.Intn(2) == 0
 	start := mT0 + int64(r.Intn(8))
+	if n := len(t.Recs); n > 0 && t.Recs[n-1].TS > (mT0+40)*1e9 {
+		start = mT0 + int64(r.Intn(int(t.Recs[n-1].TS/1e9-mT0)+10))
+	}
 	if r.Intn(3) == 0 {
 		t.Start, t.End, t.Step = start*1e9, start*1e9, 0
 		return
